@@ -67,9 +67,17 @@ def main():
     finally:
         shutil.rmtree(ver, ignore_errors=True)
         sh(["git", "-C", "/repo", "worktree", "remove", "--force", repo])
-    res["alarms"] = sorted(c for c, d in res["checks"].items() if d["exit"] != 0)
     dst = os.path.join(VERIF, "seeded", "harmless")
     os.makedirs(dst, exist_ok=True)
+    prev = os.path.join(dst, pid + ".json")
+    if "--checks" in sys.argv and os.path.exists(prev):  # a partial re-evaluation keeps the other checks' results
+        try:
+            old = json.load(open(prev)).get("checks", {})
+            old.update(res["checks"])
+            res["checks"] = dict(sorted(old.items()))
+        except Exception:
+            pass
+    res["alarms"] = sorted(c for c, d in res["checks"].items() if d["exit"] != 0)
     shutil.copy(patch, os.path.join(dst, pid + ".diff"))
     with open(os.path.join(dst, pid + ".json"), "w") as f:
         json.dump(res, f, indent=1)
